@@ -5,7 +5,8 @@ open Model
 open Conv
 open Gen_gw   (* rnd, pick, pickw, coin, bs, nn, seed_rng *)
 
-let names = ["a/b"; "t/1"; "dev/x/data"; "q"; "s/+"; "w/#"; "a/b/c"; "n1"; "n2"]
+(* incl. filters that differ from "a/b" only by an empty level *)
+let names = ["a/b"; "t/1"; "dev/x/data"; "q"; "s/+"; "w/#"; "a/b/c"; "n1"; "n2"; "a/b/"; "/a/b"; "a//b"]
 (* what an API caller may pass as a topic: now and then the empty string *)
 let api_name () = if rnd 40 = 0 then "" else pick names
 let shorts = ["ab"; "xy"]
@@ -167,7 +168,7 @@ let gen_history ?(ka = 0) (idx : int) (prof : cprofile) (oc : out_channel) =
         pickw [ (30, `Sleep); (10, `Connect); (10, `Disconnect); (10, `Publish); (5, `Ping); (3, `Close) ]
       else
         pickw [ (16, `Register); (22, `Publish); (14, `Subscribe); (6, `Unsub); (6, `Ping); (prof.c_sleep, `Sleep);
-                (4, `Disconnect); (2, `Close); (2, `Connect); (6, `PubPre); (4, `SubPre) ] in
+                (4, `Disconnect); (2, `Close); (2, `Connect); (6, `PubPre); (4, `SubPre); (5, `SubSibling) ] in
     match choice with
     | `Connect -> call "CONNECT"
     | `Register -> call ("REGISTER " ^ hx (api_name ()))
@@ -178,6 +179,15 @@ let gen_history ?(ka = 0) (idx : int) (prof : cprofile) (oc : out_channel) =
     | `PubPre -> call (Printf.sprintf "PUBPRE %d %d %d %s" (pick [1; 2; 3; 9]) (rnd 3) (rnd 2) (hex_of_bytes (payload ())))
     | `Subscribe -> call (Printf.sprintf "SUBSCRIBE %s %d" (hx (if rnd 5 = 0 then pick shorts else api_name ())) (rnd 3))
     | `SubPre -> call (Printf.sprintf "SUBPRE %d %d" (pick [1; 2; 3; 9]) (rnd 3))
+    | `SubSibling ->
+      (* a filter that differs from one already subscribed only by an empty topic level: a distinct filter *)
+      (match List.filter (fun (_, (route, _)) -> not (List.exists (fun l -> l = [nn 43] || l = [nn 35]) route)) !s.cl_handlers with
+       | [] -> call (Printf.sprintf "SUBSCRIBE %s %d" (hx (pick names)) (rnd 3))
+       | hs ->
+         let (_, (route, _)) = pick hs in
+         let name = join route in
+         let sib = (match rnd 3 with 0 -> name @ [nn 47] | 1 -> nn 47 :: name | _ -> name @ [nn 47; nn 47; nn 120]) in
+         call (Printf.sprintf "SUBSCRIBE %s %d" (hex_of_bytes sib) (rnd 3)))
     | `Unsub -> call (if rnd 4 = 0 then Printf.sprintf "UNSUBPRE %d" (pick [1; 2; 9]) else "UNSUB " ^ hx (if rnd 5 = 0 then pick shorts else api_name ()))
     | `Ping -> call "PING"
     | `Sleep -> call (Printf.sprintf "SLEEP %d" (pick [1000; 2000; 3500]))
